@@ -92,18 +92,22 @@ pub enum Colors {
     List(Vec<u32>),
     /// colour k = code(base, k); `len = None` is an endless stream
     Coded { base: u32, len: Option<u64> },
+    /// `len` colours like `Coded`, from a source whose `size_hint` claims exactly `hint` items (the hint is advisory:
+    /// a source may yield more or fewer, e.g. an adaptor that forwards its inner iterator's hint)
+    Hinted { base: u32, len: u64, hint: u64 },
 }
 impl Colors {
     pub fn len(&self) -> Option<u64> {
         match self {
             Colors::List(v) => Some(v.len() as u64),
             Colors::Coded { len, .. } => *len,
+            Colors::Hinted { len, .. } => Some(*len),
         }
     }
     pub fn at(&self, k: u64, c666: bool) -> u32 {
         match self {
             Colors::List(v) => v[k as usize],
-            Colors::Coded { base, .. } => code(*base, k, c666),
+            Colors::Coded { base, .. } | Colors::Hinted { base, .. } => code(*base, k, c666),
         }
     }
 }
@@ -240,6 +244,15 @@ impl<'a> Iterator for Budgeted<'a> {
         self.k += 1;
         PULLS.with(|p| p.set(p.get() + 1));
         Some(v)
+    }
+    fn size_hint(&self) -> (usize, Option<usize>) {
+        match self.src {
+            Colors::Hinted { hint, .. } => {
+                let h = hint.saturating_sub(self.k) as usize;
+                (h, Some(h))
+            }
+            _ => (0, None),
+        }
     }
     /// O(1) skip: consumes n+1 elements of the budget
     fn nth(&mut self, n: usize) -> Option<u32> {
